@@ -1036,8 +1036,9 @@ caption_command(vbi_decoder *vbi, struct caption *cc,
 				ch->attr.italic = FALSE;
 				ch->attr.foreground = palette_mapping[c2];
 			} else {
+				/* 47 CFR 15.119 (h)(1)(ii): The italics
+				   Mid-Row Code does not change the color. */
 				ch->attr.italic = TRUE;
-				ch->attr.foreground = VBI_WHITE;
 			}
 
 			/* 47 CFR 15.119 (h)(1)(i), EIA 608-B Section
